@@ -40,7 +40,8 @@ const P = "C19"
 type flagType struct {
 	Name   string
 	Width  int                           // bits
-	Names  func(w uint64) []string       // decomposition into names (nil: type has no decomposition)
+	Str    func(w uint64) string         // String(), for types that print their decomposition as one string
+	Names  func(w uint64) []string       // decomposition into names, for types that fill a list (neither: type has no decomposition)
 	Reuse  func(prev, w uint64) []string // decomposition of w by a receiver that decomposed prev before (types whose decomposition fills the receiver)
 	Flags  func(w uint64) []uint64       // GetFlags, if the type has one
 	Value  func(w uint64) reflect.Value  // for predicates by reflection (invalid: none)
@@ -55,22 +56,97 @@ func splitNames(s string, sep string) []string {
 	if s == "" {
 		return nil
 	}
+	if sep == "" {
+		return []string{s}
+	}
 	return strings.Split(s, sep)
+}
+
+// hasNames: the type decomposes a word into names (a joined string or a list)
+func (ft *flagType) hasNames() bool { return ft.Str != nil || ft.Names != nil }
+
+// decompose returns the names of a word. A type that prints them as one string joins them with a separator of
+// its own choice, which is learned from the type (separatorOf), never assumed.
+func (ft *flagType) decompose(w uint64) []string {
+	if ft.Str != nil {
+		sep, _ := separatorOf(ft)
+		return splitNames(ft.Str(w), sep)
+	}
+	return ft.Names(w)
+}
+
+type sepInfo struct {
+	sep      string
+	problems []vf.Finding
+}
+
+var sepCache = map[string]*sepInfo{}
+
+// separatorOf learns the separator of a String-printing flag type from its two-bit words: for bits a, b that
+// print something of their own, String(a|b) must be String(a)+sep+String(b) or String(b)+sep+String(a). The
+// separator most two-bit words agree on is the type's (shorter first on a tie); a type whose two-bit words yield no
+// separator at all is reported.
+func separatorOf(ft *flagType) (string, []vf.Finding) {
+	if si, ok := sepCache[ft.Name]; ok {
+		return si.sep, si.problems
+	}
+	si := &sepInfo{}
+	sepCache[ft.Name] = si
+	zero := ft.Str(0)
+	single := map[int]string{}
+	for b := 0; b < ft.Width; b++ {
+		if n := ft.Str(1 << uint(b)); n != "" && n != zero {
+			single[b] = n
+		}
+	}
+	votes := map[string]int{}
+	pairs := 0
+	for a := 0; a < ft.Width; a++ {
+		for b := a + 1; b < ft.Width; b++ {
+			na, nb := single[a], single[b]
+			if na == "" || nb == "" {
+				continue
+			}
+			pairs++
+			two := ft.Str(1<<uint(a) | 1<<uint(b))
+			for _, o := range [][2]string{{na, nb}, {nb, na}} {
+				if len(two) >= len(na)+len(nb) && strings.HasPrefix(two, o[0]) && strings.HasSuffix(two, o[1]) {
+					votes[two[len(o[0]):len(two)-len(o[1])]]++
+					break
+				}
+			}
+		}
+	}
+	best := -1
+	for sep, n := range votes {
+		if n > best || n == best && (len(sep) < len(si.sep) || len(sep) == len(si.sep) && sep < si.sep) {
+			best, si.sep = n, sep
+		}
+	}
+	switch {
+	case pairs == 0:
+		// fewer than two named bits: nothing to split
+	case best < 0:
+		si.problems = append(si.problems, vf.F(ft.Name, "two-bit-words-not-two-names-and-a-separator", "no word of two named bits prints as the names of its bits around a separator (%d pairs tried)", pairs))
+	case si.sep == "":
+		si.problems = append(si.problems, vf.F(ft.Name, "names-joined-without-separator", "words of two named bits print the two names with nothing between them: the decomposition cannot be read back"))
+	}
+	return si.sep, si.problems
 }
 
 var flagTypes = []flagType{
 	{Name: "flags.Flags", Width: 16, Dir: "network/smb/smb_v10/message/header/flags", Prefix: "FLAGS_",
-		Names: func(w uint64) []string { return splitNames(flags.Flags(w).String(), "|") },
+		Str:   func(w uint64) string { return flags.Flags(w).String() },
 		Value: func(w uint64) reflect.Value { return reflect.ValueOf(flags.Flags(w)) }},
 	{Name: "flags2.Flags2", Width: 16, Dir: "network/smb/smb_v10/message/header/flags2", Prefix: "FLAGS2_",
-		Names: func(w uint64) []string { return splitNames(flags2.Flags2(w).String(), "|") },
+		Str:   func(w uint64) string { return flags2.Flags2(w).String() },
 		Value: func(w uint64) reflect.Value { return reflect.ValueOf(flags2.Flags2(w)) }},
 	{Name: "capabilities.Capabilities", Width: 32, Dir: "network/smb/smb_v10/capabilities", Type: "Capabilities",
 		// capability words servers and clients commonly negotiate (NT LM 0.12 servers with and without extended
 		// security, Unix extensions, large read/write; typical client words)
 		Seeds: []uint64{0x0000F3FD, 0x0000E3FD, 0x0000F3FC, 0x0000E3FC, 0x8000F3FD, 0x8000E3FD, 0x8000F3FC, 0x8000E3FC, 0x8001F3FD, 0x8001F3FC, 0x8001E3FC,
 			0x0001F3FD, 0x0001E3FC, 0x0080F3FD, 0x8080F3FD, 0x000000D4, 0x000003DC, 0x800000D4, 0xA00000D4, 0x0000805C, 0x000043FD, 0x8000C3FD, 0x0000031D, 0xC000F3FD, 0xE000F3FD},
-		Names: func(w uint64) []string { return splitNames(capabilities.Capabilities(w).String(), "|") },
+		Str:   func(w uint64) string { return capabilities.Capabilities(w).String() },
 		Value: func(w uint64) reflect.Value { return reflect.ValueOf(capabilities.Capabilities(w)) }},
 	{Name: "securitymode.SecurityMode", Width: 8, Dir: "network/smb/smb_v10/securitymode", Type: "SecurityMode",
 		Value: func(w uint64) reflect.Value { return reflect.ValueOf(securitymode.SecurityMode(w)) }},
@@ -79,7 +155,7 @@ var flagTypes = []flagType{
 		// password never expires, workstation, domain controller, trust, delegation, smart card, pre-auth off ...
 		Seeds: []uint64{512, 514, 544, 546, 66048, 66050, 66080, 66082, 4096, 4098, 4128, 4130, 69632, 532480, 528384, 8192, 83890176, 2080, 2050, 2048,
 			590336, 262656, 262658, 328192, 1049088, 1114624, 2097664, 2163200, 4194816, 4260352, 8389120, 16777728, 16843264, 528416, 16781312, 67117056, 16, 528, 530, 640, 8388608 + 512},
-		Names: func(w uint64) []string { return splitNames(ldap_attributes.UserAccountControl(w).String(), "|") },
+		Str: func(w uint64) string { return ldap_attributes.UserAccountControl(w).String() },
 		Flags: func(w uint64) []uint64 {
 			var out []uint64
 			for _, f := range ldap_attributes.UserAccountControl(w).GetFlags() {
@@ -144,9 +220,13 @@ func bitNames(ft *flagType) (map[int]string, []string, []vf.Finding) {
 
 func bitNamesUncached(ft *flagType) (names map[int]string, empty []string, problems []vf.Finding) {
 	names = map[int]string{}
-	empty = ft.Names(0)
+	if ft.Str != nil {
+		_, problems = separatorOf(ft)
+		problems = append([]vf.Finding{}, problems...)
+	}
+	empty = ft.decompose(0)
 	for b := 0; b < ft.Width; b++ {
-		d := ft.Names(1 << uint(b))
+		d := ft.decompose(1 << uint(b))
 		if reflect.DeepEqual(d, empty) || len(d) == 0 {
 			continue
 		}
@@ -168,11 +248,11 @@ func bitNamesUncached(ft *flagType) (names map[int]string, empty []string, probl
 
 func checkDecompose(c wordCase) []vf.Finding {
 	ft := typeByName(c.Type)
-	if ft == nil || ft.Names == nil {
+	if ft == nil || !ft.hasNames() {
 		return nil
 	}
 	names, empty, fs := bitNames(ft)
-	got := ft.Names(c.Word)
+	got := ft.decompose(c.Word)
 	var want []string
 	for b := 0; b < ft.Width; b++ {
 		if c.Word&(1<<uint(b)) != 0 {
@@ -196,7 +276,7 @@ func checkDecompose(c wordCase) []vf.Finding {
 	}
 	// deterministic: repeated calls give the same sequence
 	for i := 0; i < 20; i++ {
-		if again := ft.Names(c.Word); !reflect.DeepEqual(again, got) {
+		if again := ft.decompose(c.Word); !reflect.DeepEqual(again, got) {
 			fs = append(fs, vf.F(ft.Name, "order-not-deterministic", "word %#x: %v then %v", c.Word, got, again))
 			break
 		}
@@ -221,8 +301,18 @@ func checkDecompose(c wordCase) []vf.Finding {
 				}
 			}
 		}
-		if !(len(gf) == 0 && len(wf) == 0) && !reflect.DeepEqual(gf, wf) {
-			fs = append(fs, vf.F(ft.Name+".GetFlags", "flags-not-the-named-set-bits-ascending", "word %#x: got %v want %v", c.Word, gf, wf))
+		// the named set bits, each once, in whatever order ...
+		sorted := append([]uint64{}, gf...)
+		sort.Slice(sorted, func(i, j int) bool { return sorted[i] < sorted[j] })
+		if !(len(gf) == 0 && len(wf) == 0) && !reflect.DeepEqual(sorted, wf) {
+			fs = append(fs, vf.F(ft.Name+".GetFlags", "flags-not-the-named-set-bits", "word %#x: got %v want (as a set, each once) %v", c.Word, gf, wf))
+		}
+		// ... as long as the order is deterministic: repeated calls give the same sequence
+		for i := 0; i < 20; i++ {
+			if again := ft.Flags(c.Word); !(len(again) == 0 && len(gf) == 0) && !reflect.DeepEqual(again, gf) {
+				fs = append(fs, vf.F(ft.Name+".GetFlags", "order-not-deterministic", "word %#x: %v then %v", c.Word, gf, again))
+				break
+			}
 		}
 	}
 	return fs
@@ -463,9 +553,12 @@ var anchoredDirs = []string{
 	"network/netbios",
 }
 
+// declConst is an EXPORTED integer constant of a package directory. Type is the name of its declared type: a named
+// type of the package ("NT_STATUS"), a predeclared one ("uint8"; byte counts as uint8), or "" for an untyped constant.
 type declConst struct {
 	Ident string
 	Value uint64
+	Type  string
 }
 
 type nullImporter struct{}
@@ -477,12 +570,13 @@ func (nullImporter) Import(path string) (*types.Package, error) {
 // pkgDecl is what the source of one package directory of the tree under test declares.
 type pkgDecl struct {
 	pkgName    string
-	byType     map[string][]declConst // integer constants by the name of their declared (named) type
-	all        []declConst            // every integer constant
+	byType     map[string][]declConst // exported integer constants by the name of their declared (named) type
+	all        []declConst            // every exported integer constant
 	intTypes   map[string]bool        // named types with an integer underlying type
 	structs    map[string]bool        // named structure types
+	valueField map[string]string      // structure type -> predeclared integer type of its field "Value", if it has one
 	methods    map[string]map[string]bool
-	constIdent map[string]bool
+	constIdent map[string]bool // identifiers of the exported integer constants
 }
 
 var declCache = map[string]*pkgDecl{}
@@ -498,7 +592,7 @@ func declared(dir string) (*pkgDecl, error) {
 	if err != nil {
 		return nil, err
 	}
-	pd := &pkgDecl{byType: map[string][]declConst{}, intTypes: map[string]bool{}, structs: map[string]bool{}, methods: map[string]map[string]bool{}, constIdent: map[string]bool{}}
+	pd := &pkgDecl{byType: map[string][]declConst{}, intTypes: map[string]bool{}, structs: map[string]bool{}, valueField: map[string]string{}, methods: map[string]map[string]bool{}, constIdent: map[string]bool{}}
 	for _, pkg := range pkgs {
 		var files []*ast.File
 		names := make([]string, 0, len(pkg.Files))
@@ -543,12 +637,20 @@ func declared(dir string) (*pkgDecl, error) {
 					}
 				case *types.Struct:
 					pd.structs[n] = true
+					for i := 0; i < u.NumFields(); i++ {
+						if b, ok := u.Field(i).Type().(*types.Basic); ok && u.Field(i).Name() == "Value" && b.Info()&types.IsInteger != 0 {
+							pd.valueField[n] = types.Typ[b.Kind()].Name()
+						}
+					}
 				}
 				continue
 			}
 			c, ok := sc.Lookup(n).(*types.Const)
 			if !ok || c.Val().Kind() != constant.Int {
 				continue
+			}
+			if !c.Exported() {
+				continue // a helper of the implementation (a mask, a size), not a member of any declared family
 			}
 			u, ok := constant.Uint64Val(c.Val())
 			if !ok {
@@ -558,19 +660,30 @@ func declared(dir string) (*pkgDecl, error) {
 					continue
 				}
 			}
-			d := declConst{n, u}
+			d := declConst{Ident: n, Value: u}
+			switch ct := c.Type().(type) {
+			case *types.Named:
+				d.Type = ct.Obj().Name()
+				pd.byType[d.Type] = append(pd.byType[d.Type], d)
+			case *types.Basic:
+				if ct.Info()&types.IsUntyped == 0 {
+					d.Type = types.Typ[ct.Kind()].Name()
+				}
+			}
 			pd.all = append(pd.all, d)
 			pd.constIdent[n] = true
-			if named, ok := c.Type().(*types.Named); ok {
-				pd.byType[named.Obj().Name()] = append(pd.byType[named.Obj().Name()], d)
-			}
 		}
 	}
 	declCache[dir] = pd
 	return pd, nil
 }
 
-func constsOf(dir, typ, prefix string) ([]declConst, error) {
+// constsOf returns the members of a family: the exported constants whose declared type is the family's named
+// type typ. A family without a constant type of its own is defined by an identifier prefix: its members are the
+// exported constants with that prefix; where the family's Go type goType is a structure that keeps the value in a
+// field "Value" of a predeclared integer type, the constants are declared with that type (KeyUsage_NGC uint8) and
+// only those are members - an untyped KeyCredentialVersion_Size = 4 is not a version.
+func constsOf(dir, typ, prefix, goType string) ([]declConst, error) {
 	pd, err := declared(dir)
 	if err != nil {
 		return nil, err
@@ -578,21 +691,24 @@ func constsOf(dir, typ, prefix string) ([]declConst, error) {
 	if typ != "" {
 		return pd.byType[typ], nil
 	}
+	ctype := pd.valueField[goType]
 	var out []declConst
 	for _, d := range pd.all {
-		if strings.HasPrefix(d.Ident, prefix) {
+		if strings.HasPrefix(d.Ident, prefix) && (ctype == "" || d.Type == ctype) {
 			out = append(out, d)
 		}
 	}
 	return out, nil
 }
 
-func (f constFamily) consts() ([]declConst, error) { return constsOf(f.Dir, f.Type, f.Prefix) }
+func (f constFamily) consts() ([]declConst, error) {
+	return constsOf(f.Dir, f.Type, f.Prefix, f.GoType)
+}
 
-// uncovered scans the anchored directories for types that map integer constants to names and are in
+// uncovered scans the anchored directories for exported types that map integer constants to names and are in
 // neither inventory: a named integer type with a String method, or a structure with a String or FromBytes
-// method and at least two integer constants named <Type>_... . The inventories are hand-written; this keeps
-// them complete.
+// method and at least two exported integer constants named <Type>_... . The inventories are hand-written; the
+// scan shows (as a note in the evidence) what they may lack. Unexported types are helpers of the implementation.
 func uncovered() ([]string, error) {
 	var missing []string
 	for _, dir := range anchoredDirs {
@@ -615,12 +731,12 @@ func uncovered() ([]string, error) {
 		}
 		var cands []string
 		for t := range pd.intTypes {
-			if pd.methods[t]["String"] {
+			if ast.IsExported(t) && pd.methods[t]["String"] {
 				cands = append(cands, t)
 			}
 		}
 		for t := range pd.structs {
-			if !pd.methods[t]["String"] && !pd.methods[t]["FromBytes"] {
+			if !ast.IsExported(t) || !pd.methods[t]["String"] && !pd.methods[t]["FromBytes"] {
 				continue
 			}
 			n := 0
@@ -804,7 +920,8 @@ func TestConstants(t *testing.T) {
 	if missing, err := uncovered(); err != nil {
 		t.Fatalf("INFRA: %v", err)
 	} else if len(missing) > 0 {
-		t.Fatalf("INFRA: types of the anchored directories that name integer constants but are in neither inventory (flagTypes, families) of this check: %v", missing)
+		// a new exported type is a legitimate change of the tree: it is recorded, it does not fail the run
+		s.Note("NOT COVERED: exported types of the anchored directories that name integer constants but are in neither inventory (flagTypes, families) of this check: %v", missing)
 	}
 	lowByte := map[string]map[uint64]int{}
 	vf.Enum(s, func(yield func(constCase)) {
@@ -848,10 +965,12 @@ func TestNTStatusRandom(t *testing.T) {
 // ---- a label belongs to its own constant -------------------------------------------------------------------
 //
 // The name oracles above learn name(b) / name(v) from the code under test, so two labels that changed places
-// satisfy them. Here each label is tied to the identifier of the constant it belongs to: over the squashed
-// forms (lower case, letters and digits only; the identifiers without the part they all share), the longest
-// common substring of a label with the identifier of its own constant must not be clearly shorter than
-// with the identifier of another constant of the same family.
+// satisfy them. The property asks for unique, non-placeholder names, not for names that resemble identifiers (a
+// constant may well be labelled with another established name of its value), so only unambiguous evidence counts:
+// a MUTUAL swap. Over the squashed forms (lower case, letters and digits only; the identifiers without the part
+// they all share), with the length of the longest common substring as the measure of closeness: the label of A is
+// strictly closer to the identifier of B than to A's own AND the label of B is strictly closer to the
+// identifier of A than to B's own.
 
 type labelCase struct {
 	Family string `json:"family"`
@@ -915,7 +1034,7 @@ func labelFamilyOf(name string) (*labelFamily, error) {
 	}
 	var lf *labelFamily
 	if ft := typeByName(name); ft != nil {
-		decl, err := constsOf(ft.Dir, ft.Type, ft.Prefix)
+		decl, err := constsOf(ft.Dir, ft.Type, ft.Prefix, ft.Name[strings.LastIndex(ft.Name, ".")+1:])
 		if err != nil {
 			return nil, err
 		}
@@ -941,9 +1060,17 @@ func labelFamilyOf(name string) (*labelFamily, error) {
 	return lf, nil
 }
 
-// how much longer the match with a foreign identifier must be before the label counts as misplaced: naming
-// quirks (abbreviations, words shared by neighbouring constants) stay below it
-const labelMargin = 2
+// closeness of a (squashed) label to the identifiers of the constant(s) with value v: the longest common substring
+// with any of them
+func (lf *labelFamily) closeness(l string, v uint64) int {
+	best := 0
+	for _, id := range lf.idents[v] {
+		if n := lcsLen(l, lf.short[id]); n > best {
+			best = n
+		}
+	}
+	return best
+}
 
 func checkLabel(c labelCase) []vf.Finding {
 	lf, err := labelFamilyOf(c.Family)
@@ -955,12 +1082,7 @@ func checkLabel(c labelCase) []vf.Finding {
 		return nil
 	}
 	l := squash(label)
-	own := 0
-	for _, id := range lf.idents[c.Value] {
-		if n := lcsLen(l, lf.short[id]); n > own {
-			own = n
-		}
-	}
+	own := lf.closeness(l, c.Value)
 	if own == len(l) {
 		return nil // the whole label occurs in its own identifier: nothing can match better
 	}
@@ -968,11 +1090,19 @@ func checkLabel(c labelCase) []vf.Finding {
 		if d.Value == c.Value {
 			continue
 		}
-		if _, labelled := lf.label(d.Value); !labelled {
+		other, labelled := lf.label(d.Value)
+		if !labelled {
 			continue
 		}
-		if n := lcsLen(l, lf.short[d.Ident]); n >= own+labelMargin {
-			return []vf.Finding{vf.F(c.Family+"."+c.Ident, "label-matches-another-constant", "%s = %#x is called %q, which matches %s (%d characters in common) better than its own identifier (%d)", c.Ident, c.Value, label, d.Ident, n, own)}
+		n := lcsLen(l, lf.short[d.Ident])
+		if n <= own {
+			continue
+		}
+		// this label is strictly closer to d's identifier than to its own: a swap only if d's label is, the other
+		// way round, strictly closer to this constant's identifier than to d's own
+		lo := squash(other)
+		if back, ownOther := lf.closeness(lo, c.Value), lf.closeness(lo, d.Value); back > ownOther {
+			return []vf.Finding{vf.F(c.Family+"."+c.Ident, "labels-swapped-with-another-constant", "%s = %#x is called %q, which matches %s better (%d characters in common) than its own identifier (%d), and %s is called %q, which matches %s better (%d) than its own (%d)", c.Ident, c.Value, label, d.Ident, n, own, d.Ident, other, c.Ident, back, ownOther)}
 		}
 	}
 	return nil
@@ -985,7 +1115,7 @@ func TestLabelsBelongToTheirConstants(t *testing.T) {
 	vf.Enum(s, func(yield func(labelCase)) {
 		var fams []string
 		for _, ft := range flagTypes {
-			if ft.Names != nil {
+			if ft.hasNames() {
 				fams = append(fams, ft.Name)
 			}
 		}
